@@ -256,11 +256,14 @@ def gen_run_scenario(rng, feats, cycles=None):
             timers.append({'interval': r.choice([0, 1, 1, 8, 16, 32, 32, 64]), 'persist': r.random() < 0.5,
                            'tmpl': g.tmpl(r.randint(1, g.nnames), flags=''), 'target': None,
                            'parent': r.randrange(g.ncomp)})
+            if 'deadlines' in f and r.random() < 0.3:
+                # an absolute datetime deadline (virtual clock tick; 64 ticks = 1 s), also inside a second and in the past
+                timers[-1]['deadline'] = r.choice([0, 30, 64, 64, 100, 127, 128, 130, 191, 192])
     # end timer: fires event 'nnames+1' whose handler stops the manager
     endname = g.nnames + 1
     cycles = cycles or r.choice([1, 1, 2])
     end0 = r.choice([4, 40, 100, 200]) if 'timers' in f else r.choice([2, 6])
-    if any(t['persist'] and t['interval'] <= 1 for t in timers):
+    if any(t['persist'] and (t['interval'] <= 1 or t.get('deadline') is not None) for t in timers):
         # a persistent timer that is due in every iteration: keep the run (and the model's event table) small
         end0 = min(end0, 40)
     nuser = len(timers)
@@ -494,3 +497,45 @@ def gen_multichan_pattern(rng):
             ops.append(['quiesce', 0])
     ops.append(['quiesce', 0])
     return {'tmpls': tmpls, 'progs': progs, 'comps': comps, 'ops': ops}
+
+
+def gen_stop_pattern(rng):
+    """every way of stopping a run() x every kind of place it can be raised from: stop()/stop(code)/SystemExit/
+    SystemExit(code)/KeyboardInterrupt in the `started` handler, in a plain handler, in the 1st/2nd/3rd step of a
+    generator handler, in the `stopped` handler (while already stopping); one or two run() cycles; events queued
+    behind the stop must still be dispatched"""
+    r = rng
+    code = r.choice([None, 0, 3, 7])
+    way = r.choice([['stopMgr', 0, None], ['stopMgr', 0, code], ['sysExit', None], ['sysExit', code], ['kbdInt']])
+    where = r.choice(['started', 'plain', 'gen1', 'gen2', 'gen3', 'stopped'])
+    tmpls = [{'name': str(n), 'flags': '', 'sc': None, 'cc': None} for n in (1, 2, 3)]
+    tail = [['fire', 1, None, r.choice([0, 0, 1, -1]), False] for _ in range(r.randint(0, 2))]   # queued behind the stop
+    progs = []
+    handlers = []
+
+    def add(names, prog):
+        progs.append(prog)
+        handlers.append({'names': names, 'chan': None, 'prio': 0, 'prog': len(progs) - 1, 'installed': True})
+
+    first = ['stopMgr', 0, r.choice([None, 5])]
+    if where == 'started':
+        add(['903'], [['fire', 1, None, 0, False], way] + tail)
+    else:
+        add(['903'], [['fire', 0, None, 0, False]] + ([['fire', 1, None, 0, False]] if r.random() < 0.5 else []))
+    if where == 'plain':
+        add(['1'], [way] + tail)
+    elif where in ('gen1', 'gen2', 'gen3'):
+        k = int(where[3])
+        add(['1'], [['yld', None]] * (k - 1) + [way] + tail + ([['yld', 4]] if r.random() < 0.5 else []))
+    elif where == 'stopped':
+        add(['1'], [first])
+        add(['904'], [way] + tail)
+    add(['2'], [['ret', 1]] if r.random() < 0.5 else [])
+    comps = [{'chan': '*', 'handlers': handlers, 'timer': None}]
+    ops = [['run', 0]]
+    if r.random() < 0.5:
+        ops.append(['run', 0])
+    if r.random() < 0.3:
+        ops.append(['do', 0, ['stopMgr', 0, r.choice([None, 9])]])
+        ops.append(['tick', 0])
+    return {'tmpls': tmpls, 'progs': progs, 'comps': comps, 'ops': ops, 'fuel': 4000}
